@@ -83,7 +83,7 @@ def gen(rng, kind):
         nt, nl = rng.randint(1, 4), rng.randint(1, 4)
         base = 1325376000
         times = sorted(rng.sample([base + 86400 * dd + 3600 * h for dd in range(3) for h in (0, 6, 12, 18)], nt))
-        leads = sorted(rng.sample([0.0, 6.0, 12.0, 18.0, 24.0, 30.0], nl))
+        leads = sorted(rng.sample([0.0, 1.5, 6.0, 7.5, 12.0, 18.0, 24.0, 30.0], nl))      # also lead times that are not whole hours
     else:
         nt, nl = rng.randint(1, 4), rng.randint(1, 5)
         times = sorted(rng.sample([1325376000 + 21600 * k for k in range(8)], nt))
@@ -279,8 +279,9 @@ def _explore(out, tier, seed, facts, replay):
                     samples.append({k: rep[k] for k in ("script", "argv", "format", "leads", "obs")})
             elif kind == "ens":
                 M = d["nmem"]
-                thr = sorted(rng.sample([0.0, 0.5, 1.0, 1.25, 2.0, 5.0], rng.randint(0, 3)))
-                qua = sorted(rng.sample([0.0, 0.1, 0.25, 0.5, 0.75, 0.9, 1.0], rng.randint(0, 3)))
+                # thresholds and levels in the order the user happens to give them (not necessarily increasing)
+                thr = rng.sample([0.0, 0.5, 1.0, 1.25, 2.0, 5.0], rng.randint(0, 3))
+                qua = rng.sample([0.0, 0.1, 0.25, 0.5, 0.75, 0.9, 1.0], rng.randint(0, 3))
                 pit = rng.random() < 0.6
                 if M == 1:
                     qua = [x for x in qua if x == 1.0]     # interp1d needs two knots: outside the model
@@ -331,8 +332,8 @@ def _explore(out, tier, seed, facts, replay):
                     samples.append({k: rep[k] for k in ("script", "argv", "format", "ensemble")})
             else:
                 inits = sorted(rng.sample([0, 6, 12, 18], rng.randint(1, 2)))
-                olead = sorted(rng.sample([0, 6, 12, 18, 24, 30, 36], rng.randint(1, 4)))
-                argv = [fin, "-o", fo, "-i", ",".join(str(i) for i in inits), "-lt", ",".join(str(l) for l in olead)]
+                olead = sorted(rng.sample([0, 1.5, 6, 7.5, 12, 18, 24, 30, 36], rng.randint(1, 4)))
+                argv = [fin, "-o", fo, "-i", ",".join(str(i) for i in inits), "-lt", ",".join("%g" % l for l in olead)]
                 rep = {"script": "expandverif", "argv": argv[1:], "format": fmt, "times": d["times"], "leads": d["leads"], "locs": d["locs"],
                        "obs": d["arrays"]["obs"].tolist()}
                 st, info = run_script("expandverif", argv)
@@ -356,11 +357,11 @@ def _explore(out, tier, seed, facts, replay):
                 exprs.append("flat_map (fun c => match expand_cell [%s]%%Z [%s]%%Z [%s] (fst c) (snd c) with Some r => map f_of_oQ r | None => [%s] end) [%s]" % (
                     "; ".join(str(t) for t in d["times"]), "; ".join(str(int(l * 3600)) for l in d["leads"]),
                     "; ".join(qlist(r) for r in rows), "; ".join(["nan"] * ns),
-                    "; ".join("(%d, %d)%%Z" % (t, l * 3600) for t, l in cells)))
+                    "; ".join("(%d, %d)%%Z" % (t, int(round(l * 3600))) for t, l in cells)))
                 valid = [t + int(l * 3600) for t in d["times"] for l in d["leads"]]
                 orc = []
                 for t, l in cells:
-                    v = t + l * 3600
+                    v = t + int(round(l * 3600))
                     orc.append(rows[valid.index(v)] if v in valid else [NAN] * ns)
                 imp = [list(o["obs"][i // len(olead), i % len(olead), :]) for i in range(len(cells))] if "obs" in o and o["obs"].shape == (len(otimes), len(olead), ns) else None
                 pending.append(("expandverif:obs", "expandverif %s, variable obs" % " ".join(argv[3:]), imp, orc, rep, "tie:Scripts.expand_cell"))
